@@ -175,7 +175,7 @@ def check_robust(R, variant, yy, nodata, llas, p, ykind):
     f = interp_kernel(variant)
     out_i = np.zeros(yy.size, dtype=np.int16)
     lopt_i = np.zeros(1)
-    lines = {("mad = np.median(np.abs(r_arr[", "u_arr = r_arr /"): ["mad", "r_arr", "w_temp", "gamma", "gcv_temp"]}
+    lines = {("mad = np.median(np.abs(r_arr[", "u_arr = r_arr /"): ["mad", "r_arr", "w_temp", "gamma", "gcv_temp", "s"]}
     try:
         with np.errstate(all="ignore"), shim.Tap(f, at_return=["robust_weights", "w"], lines=lines) as tap:
             if variant == "ws2dwcv":
@@ -211,10 +211,15 @@ def check_robust(R, variant, yy, nodata, llas, p, ykind):
                 tie_only = True
                 R.count("cvi_irls_sign_degenerate")
             elif np.all(dd <= 3):
-                # last-ulp differences of the weights are amplified by the conditioning of (W_robust + lambda D'D) when long
-                # outages carry few weighted cells (C01 known-finding regime): excluded when kappa*eps*max|z| reaches 0.05
-                keps = W.cond2(yy.size, np.asarray(rw_t, dtype=float), li) * 2.0 ** -53
-                if keps * float(np.max(np.abs(zt))) >= 0.05:
+                # the lambdas (10**srange) and weights of the two worlds differ in the last ulp; every solve along the robust
+                # iterations amplifies that by kappa(W_it + s_it D'D) into the residual scale and hence the next weights.
+                # Excluded when the worst kappa*eps*max|y| along the tapped path reaches 1e-5 (long outages, large s: the
+                # C01 known-finding regime); measured witness: s = 3.2e6 in the first pass -> MAD differs by 5e-7 relative
+                path = [(np.asarray(loc["w_temp"], dtype=float), float(loc["s"])) for _, loc in tap.events if loc.get("w_temp") is not None and loc.get("s") is not None]
+                path.append((np.asarray(rw_t, dtype=float), li))
+                keps = max(W.cond2(yy.size, wt, st_) for wt, st_ in path if (wt > 0).sum() >= 2) * 2.0 ** -53
+                R.note_max("max_cvi_path_kappa_eps", keps)
+                if keps * float(np.max(np.abs(ycl))) >= 1e-5:
                     tie_only = True
                     R.count("cvi_ill_conditioned_excluded")
         if abs(li - lopt) > 1e-12 * lopt or (li == lopt and not np.array_equal(out_i, band) and not tie_only):
